@@ -135,17 +135,20 @@ pub fn scripts(tier: Tier) -> Vec<Script> {
             }
         }
     }
-    if tier == Tier::Thorough {
+    // other page sizes (4096; 5000, whose second header slot does not start on a sector boundary)
+    for (name, ps, third, big) in [("p4096-growth-and-reuse", 4096u64, "w*1200", "L*9000"), ("p5000-growth-and-reuse", 5000, "w*1500", "L*11000")] {
         out.push(Script {
-            name: "p4096-growth-and-reuse",
-            cfg: small(4096, 4),
+            name,
+            cfg: small(ps, 4),
             actions: vec![
-                tx(vec![OpSpec::bucket("create", &[], "a"), OpSpec::put(&["a"], "k1", "w*1200"), OpSpec::put(&["a"], "k2", "w*1200")]),
-                tx(vec![OpSpec::put(&["a"], "k3", "L*9000"), OpSpec::put(&["a"], "k1", "v*25")]),
-                tx(vec![OpSpec::del(&["a"], "k3"), OpSpec::put(&["a"], "k4", "w*1200"), OpSpec::put(&["a"], "k5", "w*1200"), OpSpec::put(&["a"], "k6", "w*1200")]),
+                tx(vec![OpSpec::bucket("create", &[], "a"), OpSpec::put(&["a"], "k1", third), OpSpec::put(&["a"], "k2", third)]),
+                tx(vec![OpSpec::put(&["a"], "k3", big), OpSpec::put(&["a"], "k1", "v*25")]),
+                tx(vec![OpSpec::del(&["a"], "k3"), OpSpec::put(&["a"], "k4", third), OpSpec::put(&["a"], "k5", third), OpSpec::put(&["a"], "k6", third)]),
                 tx(vec![OpSpec::del(&["a"], "k1"), OpSpec::del(&["a"], "k2")]),
             ],
         });
+    }
+    if tier == Tier::Thorough {
         // a longer chain at 1024 with a reopen in the middle (pending pages become free)
         let mut chain = vec![tx({
             let mut v = vec![OpSpec::bucket("create", &[], "b"), OpSpec::bucket("create", &["b"], "n")];
@@ -668,7 +671,7 @@ pub fn run(check: &mut Check) {
                 jobs.push(json!({"script": si, "step": step, "part": part, "parts": parts}).to_string());
                 meta.push((si, step, part));
             }
-            if !sc.name.starts_with("kv2-") || tier == Tier::Thorough {
+            if !(sc.name.starts_with("kv2-") || sc.name.starts_with("p5000") || sc.name.starts_with("p4096")) || tier == Tier::Thorough {
                 jobs.push(json!({"script": si, "step": step, "part": 0, "parts": 1, "level2": true}).to_string());
                 meta.push((si, step, 999));
             }
